@@ -53,7 +53,9 @@ class FakePort(PortExtras):
     wide_faults = True       # False while connect / reboot / bootload run: those contain pyserial's exceptions only (see DESIGN.md 0.6)
     force_fault = None       # a harness may pin the exception class of every injected fault (e.g. SerialTimeoutException at the write)
     write_attempts = 0
+    faults_raised = 0
     def fault(self, where):
+        self.faults_raised += 1
         pool = self.FAULTS if self.wide_faults else self.NARROW
         if self.force_fault is not None: pool = [self.force_fault]
         cls = pool[self.script.consumed % len(pool)]
@@ -229,7 +231,7 @@ def run_history(calls, events, close_raises=False):
     obj.record_error = spy
     try:
         for call in calls:
-            before_w = len(fp.writes); before_c = script.consumed; before_r = len(recorded); before_l = len(fp.lines_read); before_err = obj.err
+            before_w = len(fp.writes); before_c = script.consumed; before_r = len(recorded); before_l = len(fp.lines_read); before_err = obj.err; before_f = fp.faults_raised
             raised, ret = None, None
             fp.wide_faults = call[0] not in ("connect", "reboot", "bootload", "disconnect")
             try:
@@ -248,7 +250,7 @@ def run_history(calls, events, close_raises=False):
                 raised = "WroteAfterRecordedError"      # the request recorded an error and went on transmitting (its later exchanges)
             out.append({"raised": raised, "ret": ret, "writes": writes, "err": err_kind(obj.err), "err_text": obj.err,
                         "port": obj.port is not None, "name": obj.name, "consumed": script.consumed - before_c,
-                        "read_err": any("Err:" in l for l in fp.lines_read[before_l:])})
+                        "read_err": any("Err:" in l for l in fp.lines_read[before_l:]) or fp.faults_raised > before_f})
     finally:
         uninstall()
     return out
